@@ -26,8 +26,8 @@ RULE = (
     "probe; distinct_nontrivial = distinct (formula, spelling, key, position) cases"
 )
 BOUNDS = {
-    "quick": "depth<=1 over 14 atoms fully crossed; depth 2 over 6 atoms (sole position)",
-    "thorough": "depth<=1 over 14 atoms fully crossed; depth 2 over 6 atoms in all positions; depth-3 left/right chains over {T,F,R}",
+    "quick": "depth<=1 over 15 atoms fully crossed; depth 2 over 7 atoms in all positions (one key spelling each); depth-3 left/right chains over {T,F,R}",
+    "thorough": "depth<=1 over 15 atoms fully crossed; depth 2 over 7 atoms in all positions, both key spellings (guard / cond); depth-3 left/right chains over {T,F,R}",
 }
 ASSUMPTIONS = [
     "a missing atom that cannot influence the formula's value may or may not be reported (short-circuiting is allowed)",
@@ -35,8 +35,8 @@ ASSUMPTIONS = [
 ]
 ENGINES = ("sync", "async")
 
-ATOMS1 = ["T", "F", "R", "M", "Pt", "Pf", "Pc", "Pz", "Pe", "Sa", "Sp", "Ss", "Si", "Sn"]
-ATOMS2 = ["T", "F", "R", "M", "Sa", "Si"]
+ATOMS1 = ["T", "F", "R", "Rp", "M", "Pt", "Pf", "Pc", "Pz", "Pe", "Sa", "Sp", "Ss", "Si", "Sn"]
+ATOMS2 = ["T", "F", "R", "Rp", "M", "Sa", "Si"]
 POSITIONS = ["sole", "first", "second", "parent", "second-p", "parent-p", "choose", "check"]
 
 
@@ -46,6 +46,8 @@ def atom_cfg(a: str) -> Any:
         "T": "gT",
         "F": "gF",
         "R": "gR",
+        # the guard's computed params RAISE: the guard raised as far as the statement is concerned - it counts as false
+        "Rp": {"type": "gP", "params": _raising_params},
         "M": "gMissing",
         "Pt": {"type": "gP", "params": {"v": True}},
         "Pf": {"type": "gP", "params": {"v": False}},
@@ -66,12 +68,16 @@ def _empty_params(args):
     return {}
 
 
+def _raising_params(args):
+    raise KeyError("params callable raised")
+
+
 def _callable_params(args):
     return {"v": True, "computed": True}
 
 
 def atom_val(a: str) -> Any:
-    return {"T": True, "F": False, "R": False, "M": "M", "Pt": True, "Pf": False, "Pc": True, "Pz": True, "Pe": False,
+    return {"T": True, "F": False, "R": False, "Rp": False, "M": "M", "Pt": True, "Pf": False, "Pc": True, "Pz": True, "Pe": False,
             "Sa": True, "Sp": True, "Ss": True, "Si": False, "Sn": False}[a]
 
 
@@ -307,11 +313,12 @@ def units(tier: str) -> List[Any]:
                 for pos in POSITIONS:
                     cases.append((f, sp, key, pos))
     f2 = [f for f in formulas(ATOMS2, 2) if f not in set(f1)]
-    positions2 = ["sole"] if tier == "quick" else POSITIONS
     for i, f in enumerate(f2):
-        for pos in positions2:
-            cases.append((f, i, "guard" if i % 2 == 0 else "cond", pos))
-    if tier == "thorough":
+        for pos in POSITIONS:
+            keys2 = ("guard", "cond") if tier == "thorough" else ("guard" if i % 2 == 0 else "cond",)
+            for key in keys2:
+                cases.append((f, i, key, pos))
+    if True:
         base = ["T", "F", "R"]
         chains = []
         for ops in itertools.product(["and", "or"], repeat=3):
